@@ -73,7 +73,6 @@ template <int N, typename F> static bool chk(Outcome& o, const glm::mat<N, N, F,
   }
   return true;
 }
-template <int N> static W4 wones() { W4 r; for (int c = 0; c < 4; ++c) for (int k = 0; k < 4; ++k) r.a[c][k] = 1; return r; }
 
 // ------------------------------------------------------------------------------------------ base matrices M
 // 0: I, 1: TAG (distinct primes), 2: an affine TRS, 3: a projective matrix, 4..35: DEV_1(I, {-2,3})
@@ -341,8 +340,8 @@ static const L DEC_C = 48;
 template <typename F> static bool judge(Outcome& o, const W4& got, const W4& Mf, const W4& UN, int vc, int slot, const char* legacy_msg, const char* bad_msg) {
   const L u = U<F>(), w33 = Mf.a[3][3]; const bool wn1 = w33 != 1; bool ok = true, legacy = wn1; int bc = 0, br = 0;
   for (int cc = 0; cc < 4; ++cc) for (int rr = 0; rr < 4; ++rr) { L e = fabsl(got.a[cc][rr] - Mf.a[cc][rr]), unit = u * UN.a[cc][rr];
-    if (!(e <= DEC_C * unit)) { if (ok) { bc = cc; br = rr; } ok = false; } if (!wn1) meas<F>(slot + (rr == 3), e, unit);
-    if (wn1) { L el = fabsl(got.a[cc][rr] - Mf.a[cc][rr] / w33), ul = unit / fabsl(w33); if (!(el <= DEC_C * ul)) legacy = false; meas<F>(S_DEC_LEGACY + (rr == 3), el, ul); } }
+    if (!(e <= DEC_C * unit)) { if (ok) { bc = cc; br = rr; } ok = false; } else meas<F>(slot + (rr == 3), e, unit);
+    if (wn1) { L el = fabsl(got.a[cc][rr] - Mf.a[cc][rr] / w33), ul = unit / fabsl(w33); if (!(el <= DEC_C * ul)) legacy = false; else meas<F>(S_DEC_LEGACY + (rr == 3), el, ul); } }
   if (ok) return true;
   o.res(FT<F>::bits((F)got.a[bc][br]), (uint64_t)(bc * 4 + br)); o.exp(FT<F>::bits((F)Mf.a[bc][br]));
   if (legacy) { o.kf = KF_DECOMPOSE_W; o.bad(vc, legacy_msg); } else o.bad(vc + 1, bad_msg);
